@@ -2175,6 +2175,10 @@ impl<S, T> Drop for Client<S, T> {
             guard.remove(&(self.process_id, self.secret_key));
         }
 
+        // Every way out of the client task ends here, a panic included:
+        // the client must not stay listed in the statistics.
+        self.stats.disconnect();
+
         // Dirty shutdown
         // TODO: refactor, this is not the best way to handle state management.
         if self.connected_to_server && self.last_server_stats.is_some() {
